@@ -15,3 +15,4 @@ from . import cli  # noqa
 from . import txser  # noqa
 from . import bip39  # noqa
 from . import bip32  # noqa
+from . import bip173  # noqa
